@@ -307,7 +307,7 @@ Section Final.
       apply rt_step. apply SWriteTable.
       destruct (InvProofs.init_dir_rs_inv T teqb hc teqb_spec _ _ _ Hinv Hi) as [_ Ht].
       assert (clock_ok teqb w1) as Hk by apply (setup_inv1 T teqb hc teqb_spec w w1 tbl Hinv Hi).
-      destruct (take_blobs_ok T teqb hc _ _ _ _ _ Hk Ht Htb) as [_ Ht']. exact Ht'.
+      destruct (take_blobs_ok T teqb hc teqb_spec _ _ _ _ _ Hk Ht Htb) as [_ Ht']. exact Ht'.
     Qed.
 
     Lemma fs_inv1 : disk_inv w1t.
@@ -590,7 +590,7 @@ Proof.
 Qed.
 
 Lemma fx_inv : disk_inv sym_eqb SContent fx_w /\ hist_sound_sym fx_w.
-Proof. apply (reach_hist_sound_partial_sym 1 fx_ops); [reflexivity | exact fx_det_history]. Qed.
+Proof. apply (reach_hist_sound_partial_sym 1 fx_ops); exact fx_det_history. Qed.
 
 Lemma fx_init : init_dir sym fx_w = Ok (fx_w1, fx_tbl).
 Proof. vm_compute. reflexivity. Qed.
